@@ -1,31 +1,86 @@
 #!/usr/bin/env python3
-"""tools/seedsweep.py: run every seeded change against the check of its
-property (quick tier) on the current /repo HEAD and write seeded/SWEEP.md."""
-import os, sys, json, glob, subprocess, time
+"""tools/seedsweep.py [--workers N] [--jobs J] [seed names...]: run every seeded
+change against the check of its property (quick tier) on the current /repo HEAD
+and write seeded/SWEEP.md (rewritten after every seed, so a sweep that is cut
+short leaves what it has).  N seeds are tested at a time, each check with J
+pool processes (VERIF_JOBS)."""
+import os, sys, json, glob, subprocess, time, threading
 V = os.path.dirname(os.path.dirname(os.path.abspath(__file__)))
-rows = []
+args = sys.argv[1:]
+workers, jobs = 4, 4
+while args and args[0].startswith("--"):
+    if args[0] == "--workers":
+        workers = int(args[1]); args = args[2:]
+    elif args[0] == "--jobs":
+        jobs = int(args[1]); args = args[2:]
+    else:
+        raise SystemExit("unknown option " + args[0])
 head = subprocess.check_output(["git", "-C", "/repo", "log", "--format=%h", "-1"]).decode().strip()
-for seed in sorted(glob.glob(os.path.join(V, "seeded", "C*-*"))):
+vhead = subprocess.check_output(["git", "-C", V, "log", "--format=%h", "-1"]).decode().strip()
+seeds = sorted(glob.glob(os.path.join(V, "seeded", "C*-*")),
+               key=lambda s: (os.path.basename(s).split("-")[0], int(os.path.basename(s).split("-")[1])))
+if args:
+    seeds = [s for s in seeds if os.path.basename(s) in args]
+rows = {}
+lock = threading.Lock()
+
+
+def write():
+    with open(os.path.join(V, "seeded", "SWEEP.md"), "w") as f:
+        f.write("# Sweep of the seeded changes against /repo HEAD %s with the checks of /verif %s (quick tier)\n\n" % (head, vhead))
+        f.write("| seed | change | demo unchanged | demo patched | check | labels (first 3) | s |\n|---|---|---|---|---|---|---|\n")
+        for s in seeds:
+            r = rows.get(os.path.basename(s))
+            if r is None:
+                continue
+            f.write("| %s | %s | exit=%s | exit=%s | %s | %s | %d |\n" % (
+                r[0], r[6].replace("|", "/"), r[1], r[2], r[3], "; ".join("`%s`" % l for l in r[4]), r[5]))
+        caught = sum(1 for r in rows.values() if "exit=1" in r[3])
+        f.write("\n%d of %d seeded changes tested so far (of %d) are reported as VIOLATION by the quick tier of a check.\n"
+                % (caught, len(rows), len(seeds)))
+
+
+def one(seed):
     name = os.path.basename(seed)
     prop = name.split("-")[0]
     t0 = time.time()
     meta = json.load(open(os.path.join(seed, "meta.json")))
     checks = meta.get("checks") or [prop]      # "checks": other properties' checks that (also) catch it
-    p = subprocess.run(["python3", os.path.join(V, "tools", "seedtest.py"), seed] + checks,
-                       capture_output=True, text=True, timeout=3600)
-    out = p.stdout
+    env = dict(os.environ, VERIF_JOBS=str(jobs))
+    try:
+        p = subprocess.run(["python3", os.path.join(V, "tools", "seedtest.py"), seed] + checks,
+                           capture_output=True, text=True, timeout=5400, env=env)
+        out = p.stdout
+    except subprocess.TimeoutExpired:
+        out = "check %s exit=timeout" % prop
     demo_u = [l for l in out.splitlines() if l.startswith("demo unchanged")]
     demo_p = [l for l in out.splitlines() if l.startswith("demo patched")]
     chk = [l for l in out.splitlines() if l.startswith("check ")]
     labels = [l.split("label:")[1].split(" partition:")[0].strip() for l in out.splitlines() if "label:" in l]
-    rows.append((name, demo_u[0].split("exit=")[1][:6] if demo_u else "?", demo_p[0].split("exit=")[1][:6] if demo_p else "?",
-                 "; ".join(chk) if chk else "patch failed", sorted(set(labels))[:3], time.time() - t0,
-                 (meta.get("title") or "")[:110]))
-    print(rows[-1]); sys.stdout.flush()
-with open(os.path.join(V, "seeded", "SWEEP.md"), "w") as f:
-    f.write("# Sweep of all seeded changes against /repo HEAD %s (quick tier)\n\n" % head)
-    f.write("| seed | change | demo unchanged | demo patched | check | labels (first 3) | s |\n|---|---|---|---|---|---|---|\n")
-    for r in rows:
-        f.write("| %s | %s | exit=%s | exit=%s | %s | %s | %d |\n" % (r[0], r[6].replace("|", "/"), r[1], r[2], r[3], "; ".join("`%s`" % l for l in r[4]), r[5]))
-    caught = sum(1 for r in rows if "exit=1" in r[3])
-    f.write("\n%d of %d seeded changes are reported as VIOLATION by the quick tier of their property's check.\n" % (caught, len(rows)))
+    row = (name, demo_u[0].split("exit=")[1][:6] if demo_u else "?", demo_p[0].split("exit=")[1][:6] if demo_p else "?",
+           "; ".join(chk) if chk else "patch failed", sorted(set(labels))[:3], time.time() - t0,
+           (meta.get("title") or "")[:110])
+    with lock:
+        rows[name] = row
+        print(row); sys.stdout.flush()
+        write()
+
+
+todo = list(seeds)
+
+
+def worker():
+    while True:
+        with lock:
+            if not todo:
+                return
+            s = todo.pop(0)
+        one(s)
+
+
+ts = [threading.Thread(target=worker) for _ in range(workers)]
+for t in ts:
+    t.start()
+for t in ts:
+    t.join()
+write()
